@@ -34,6 +34,8 @@ for pid in ids:
 engines = {}
 for pid, c in registry.CLAIMED.items():
     engines.setdefault(c["engine"], []).append(pid)
+SM_ENGINES = {"Alloc", "AsmCFG", "BinStream", "BoundedDict", "Graph", "Intern", "Interval", "LibImp", "LocationDB", "StrPatchwork",
+              "SymbMem", "VmMngr"}
 man = {
     "version": 1,
     "setup_cmd": "sh ./setup.sh",
@@ -45,7 +47,11 @@ man = {
         "add_only": True,
     },
     "engines": [{"name": k, "path": "/verif/spec/%s.tla" % k, "serves_properties": sorted(v),
-                 "kind_free_text": "TLA+ specification + TLC; bound to the code by harness/sm.py (spec->code replay, code->spec trace validation)"}
+                 "kind_free_text": ("TLA+ specification + TLC; bound to the code by harness/sm.py (spec->code replay of every TLC-enumerated "
+                                    "edge, code->spec trace validation of recorded histories)"
+                                    if k in SM_ENGINES else
+                                    "TLA+ reference specification evaluated by TLC as the judge of events recorded from the real code "
+                                    "(batch trace validation through the *Judge.tla module, harness/exprjson.judge)")}
                 for k, v in sorted(engines.items())],
     "checks": checks,
     "not_applicable": na,
